@@ -415,6 +415,12 @@ func runC14(c *Ctx) {
 func runC20(c *Ctx) {
 	runC20Global(c)
 	r := c.R
+	// the token table is a constant of the package: it reads the same after the library has split and formatted long
+	// messages (in this process) as in a fresh one; everything below runs after this
+	for _, text := range []string{strings.Repeat("{b}word{b} {red}colour{c} \x01 ", 60), strings.Repeat("x", 900)} {
+		long := &girc.Event{Command: "PRIVMSG", Params: []string{"#c", girc.Fmt(text)}}
+		_ = girc.VerifEventSplit(long, 300)
+	}
 	r.Rule = "random item lists over EVERY colour and code name in random letter case, fg/bg pairs, literals with digits, commas, control bytes, " +
 		"unknown {tokens} and unmatched braces (Fmt on arbitrary text must agree byte for byte with the model); arbitrary strings for the StripRaw laws " +
 		"incl. all \\x03 + up to 5 bytes over {0,1,2,9,',',x} exhaustively; non-trivial = contains a brace or a control byte; distinct = distinct string"
